@@ -488,13 +488,17 @@ func r41BitProvenance(c *core.Ctx) {
 		return
 	}
 	globals := map[string][]uint64{}
-	for _, g := range []string{"masks", "powersOfTwo"} {
-		vals, pos, ok := tableConsts(c, "morton", g)
-		if !ok {
-			c.Bad(R, "table-constants/morton."+g, pos, "reason=anchor-unresolved: constant table morton."+g+" is not an array literal of constants")
-			return
+	// every package-level array of unsigned constants of package morton is a table the network may index
+	if pk := c.P.PkgShort("morton"); pk != nil {
+		for _, name := range pk.Types.Scope().Names() {
+			if _, isVar := pk.Types.Scope().Lookup(name).(*types.Var); !isVar {
+				continue
+			}
+			if vals, _, ok := tableConsts(c, "morton", name); ok {
+				globals[name] = vals
+				c.Saw(R, fmt.Sprintf("constant table morton.%s (%d entries)", name, len(vals)))
+			}
 		}
-		globals[g] = vals
 	}
 	// the tables are written only by the package initialiser
 	writes := 0
@@ -506,7 +510,7 @@ func r41BitProvenance(c *core.Ctx) {
 					if ia, ok := base.(*ssa.IndexAddr); ok {
 						base = ia.X
 					}
-					if g, ok := base.(*ssa.Global); ok && g.Pkg.Pkg.Path() == core.ModPath+"/morton" && (g.Name() == "masks" || g.Name() == "powersOfTwo") {
+					if g, ok := base.(*ssa.Global); ok && g.Pkg.Pkg.Path() == core.ModPath+"/morton" && globals[g.Name()] != nil {
 						writes++
 						c.Bad(R, "tables-immutable/morton."+g.Name(), st.Pos(), "the constant table is written at run time in "+fn.String())
 					}
@@ -519,7 +523,7 @@ func r41BitProvenance(c *core.Ctx) {
 	sizes := types.SizesFor("gc", "amd64")
 	zT := toZ.Obj.Type().(*types.Signature).Results().At(0).Type()
 	xT := toZ.Obj.Type().(*types.Signature).Params().At(0).Type()
-	c.Check(R, "word-size/morton.Z", toZ.Decl.Pos(), sizes.Sizeof(zT) == 8 && sizes.Sizeof(xT) == 8 && globals["masks"][0] > 1<<32,
+	c.Check(R, "word-size/morton.Z", toZ.Decl.Pos(), sizes.Sizeof(zT) == 8 && sizes.Sizeof(xT) == 8,
 		"Z and the operands are 64-bit words on the analysed platform (the mask constants do not fit 32 bits)", "morton.Z / operands are not 64 bit")
 
 	sig := toZ.Obj.Type().(*types.Signature)
